@@ -88,6 +88,19 @@ def design_level(rep, tier):
                      "alphabet B with the top-of-memory atoms (17 atoms): %d states; same invariants hold"
                      % (tier, rb.distinct, rb.depth, rl.distinct, rl.depth, rt.distinct))
     cases += casesB
+    # round 9: alphabet C - assembly-time variables assigned again between assertions and operands
+    rc_ = V.tlc(MC, cfg=cfg("idealC_" + tier), tag="C18-idealC", **big)
+    if rc_.invariant_violated:
+        rep.violations.append({"why": "design level: TestRunner (alphabet C) violates an invariant", "replay": {"tlc_output": V.tail(rc_.out, 80)}, "id": "MC_TestRunner alphabet C"})
+        return []
+    if rc_.rc != 0 or "Error:" in rc_.out:
+        raise V.ToolError("MC_TestRunner (alphabet C) failed:\n%s" % V.tail(rc_.out, 40))
+    rep.add_tlc(rc_)
+    casesC = [D.from_tlc_case(l) for l in rc_.prints("CASE")]
+    for c in casesC:
+        c["alphabet"] = "C"
+    rep.notes.append("MC_TestRunner alphabet C (variables assigned again between assertions and operands, %s): %d states, %d cases" % (tier, rc_.distinct, len(casesC)))
+    cases += casesC
     if DEV in rep.open:
         rm = V.tlc(MC, cfg=cfg("impl_" + tier), tag="C18-impl", **big)
         if rm.invariant_violated:
@@ -103,7 +116,8 @@ def design_level(rep, tier):
         rep.notes.append("MC_TestRunner impl (%s): %d states; property holds weakened by the witness of %s only; "
                          "un-weakened it is violated (TLC counterexample = the finding)" % (tier, rm.distinct, DEV))
     witnesses = ("NoPass", "NoFailInLoop", "NoFailInSub", "NoUnevaluable", "NoSkipped",
-                 "NoWrapJumpPass", "NoRtiPass", "NoBreakBitsSeen", "NoPlpFlags", "NoTopByteRead", "NoWordPastTop")        # the last six: alphabet B
+                 "NoWrapJumpPass", "NoRtiPass", "NoBreakBitsSeen", "NoPlpFlags", "NoTopByteRead", "NoWordPastTop",        # these six: alphabet B
+                 "NoTwoValuesPass", "NoLateVarFail")                                                              # alphabet C
 
     def vac(w):
         return w, V.tlc(MC, cfg=cfg("vac_" + w), workers=2, timeout=900, tag="C18-vac-" + w)
@@ -192,6 +206,11 @@ def main(tier):
     # (input selection only) bodies whose Ideal verdict is "unspec" mostly do not terminate: they would only hit the timeout
     cases = [c for c in cases if c["ideal"] != "unspec"]
     rnd.shuffle(cases)
+    # a quota per alphabet, so that the variables of alphabet C are always among the cases run
+    n_c = 200 if tier == "quick" else 2000
+    # (input selection only) of alphabet C first the bodies whose first two assertions hold: there a later assertion sees a variable that was assigned again
+    cc = sorted([c for c in cases if c.get("alphabet") == "C"], key=lambda c: 0 if (c["ideal"] == "passed" or c["aid"] >= 3) else 1)
+    cases = [c for c in cases if c.get("alphabet") != "C"][:n_gen - n_c] + cc[:n_c]
     jobs, origin = [], {}
     for c in cases[:n_gen]:
         cid = len(jobs) + 1
